@@ -961,7 +961,7 @@ class CodeGenerator(NodeVisitor):
         """Call a block and register it for the template."""
         self.block_eval_ctx[node.name] = frame.eval_ctx.save()
         level = 0
-        if frame.toplevel:
+        if frame.require_output_check:
             # if we know that we are a child template, there is no need to
             # check if we are one
             if self.has_known_extends:
@@ -1051,6 +1051,9 @@ class CodeGenerator(NodeVisitor):
 
     def visit_Include(self, node: nodes.Include, frame: Frame) -> None:
         """Handles includes."""
+        if not self.enter_output_check(frame):
+            return
+
         if node.ignore_missing:
             self.writeline("try:")
             self.indent()
@@ -1109,6 +1112,8 @@ class CodeGenerator(NodeVisitor):
 
         if node.ignore_missing:
             self.outdent()
+
+        self.leave_output_check(frame)
 
     def _import_common(
         self, node: nodes.Import | nodes.FromImport, frame: Frame
@@ -1389,15 +1394,24 @@ class CodeGenerator(NodeVisitor):
         self.macro_def(macro_ref, macro_frame)
 
     def visit_CallBlock(self, node: nodes.CallBlock, frame: Frame) -> None:
+        if not self.enter_output_check(frame):
+            return
+
         call_frame, macro_ref = self.macro_body(node, frame)
         self.writeline("caller = ")
         self.macro_def(macro_ref, call_frame)
         self.start_write(frame, node)
         self.visit_Call(node.call, frame, forward_caller=True)
         self.end_write(frame)
+        self.leave_output_check(frame)
 
     def visit_FilterBlock(self, node: nodes.FilterBlock, frame: Frame) -> None:
+        if not self.enter_output_check(frame):
+            return
+
         filter_frame = frame.inner()
+        # the body is always captured
+        filter_frame.require_output_check = False
         filter_frame.symbols.analyze_node(node)
         self.enter_frame(filter_frame)
         self.buffer(filter_frame)
@@ -1406,6 +1420,7 @@ class CodeGenerator(NodeVisitor):
         self.visit_Filter(node.filter, filter_frame)
         self.end_write(frame)
         self.leave_frame(filter_frame)
+        self.leave_output_check(frame)
 
     def visit_With(self, node: nodes.With, frame: Frame) -> None:
         with_frame = frame.inner()
@@ -1544,15 +1559,28 @@ class CodeGenerator(NodeVisitor):
         if finalize.src is not None:
             self.write(")")
 
-    def visit_Output(self, node: nodes.Output, frame: Frame) -> None:
-        # If an extends is active, don't render outside a block.
+    def enter_output_check(self, frame: Frame) -> bool:
+        """If an extends is active, don't render outside a block. Returns
+        ``False`` if it is known at compile time that nothing is rendered.
+        Must be paired with :meth:`leave_output_check`.
+        """
         if frame.require_output_check:
             # A top-level extends is known to exist at compile time.
             if self.has_known_extends:
-                return
+                return False
 
             self.writeline("if parent_template is None:")
             self.indent()
+
+        return True
+
+    def leave_output_check(self, frame: Frame) -> None:
+        if frame.require_output_check:
+            self.outdent()
+
+    def visit_Output(self, node: nodes.Output, frame: Frame) -> None:
+        if not self.enter_output_check(frame):
+            return
 
         finalize = self._make_finalize()
         body: list[list[t.Any] | nodes.Expr] = []
@@ -1620,8 +1648,7 @@ class CodeGenerator(NodeVisitor):
             self.outdent()
             self.writeline(")" if len(body) == 1 else "))")
 
-        if frame.require_output_check:
-            self.outdent()
+        self.leave_output_check(frame)
 
     def visit_Assign(self, node: nodes.Assign, frame: Frame) -> None:
         self.push_assign_tracking()
